@@ -279,7 +279,20 @@ def _open(data: bytes, form: str, pos: int, api: str, disk: SimDisk, tag: str):
     return opener(SimSource(data, pos=pos))
 
 
+PREAMBLE = b"#!caller-owned header, 64 bytes, written before the package\n".ljust(64, b".")
+
+
 def _save(obj, sink: str) -> bytes:
+    if sink == "preamble":
+        # a seekable stream that already holds caller data, positioned at its end (self-extracting stub, container header): the package
+        # goes where the cursor is and the caller's bytes stay
+        s = SimSink("seekable")
+        s.write(PREAMBLE)
+        obj.save(s)
+        img = s.image()
+        if img[:len(PREAMBLE)] != PREAMBLE:
+            raise Violation("sink|caller-data-before-the-package-overwritten", "first bytes now %r" % img[:24], CLAUSES["parts"])
+        return img
     if sink == "path":
         p = os.path.join(scratch_dir(), "c01-out.pptx")
         obj.save(p)
@@ -367,6 +380,25 @@ def execute(trace: dict, known, collect_log=True) -> dict:
         log.append({"in": sha(data)[:12], "reach": len(ref_in.reachable)})
         if ref_in.dangling:
             raise RuntimeError("generator produced dangling rels: %r" % ref_in.dangling[:3])
+        neighbour = None
+        if cyc.get("neighbour") and cyc["api"] == "presentation":
+            # another document in the same process: the same file opened as a second object and edited through the public API (kept alive,
+            # never saved).  The object under test is opened afterwards and saved unchanged.
+            import pptx as _pptx
+            neighbour = _pptx.Presentation(SimSource(data))
+            for m_ in neighbour.slide_masters:
+                m_.name = "edited in the neighbour"
+                for l_ in m_.slide_layouts:
+                    l_.name = "edited in the neighbour"
+            for s_ in neighbour.slides:
+                s_.name = "edited in the neighbour"
+                for sh_ in s_.shapes:
+                    sh_.name = "edited in the neighbour"
+                    sh_.left = 12345
+            if len(neighbour.slide_layouts):
+                neighbour.slides.add_slide(neighbour.slide_layouts[0])
+            neighbour.slide_width = 7777777
+            res["stats"].hit("c01_neighbour_document_edited")
         try:
             obj = _open(data, cyc["form"], cyc.get("pos", 0), cyc["api"], disk, "in")
         except Exception as e:  # noqa: BLE001
@@ -476,9 +508,12 @@ def gen_trace(seed: int, tier: str) -> dict:
            "form2": r.choice(["stream", "path", "dir"]), "api": "package",
            "jump1": r.choice([0, 0, 3600, -86400 * 400, 86400 * 9000]), "jump2": r.choice([0, 0, -7200, 86400 * 365])}
     t = {"property": ID, "seed": seed, "tier": tier, "cycle": cyc, "events": []}
+    if r.random() < 0.15:
+        cyc["sink1"] = "preamble"
     if r.random() < 0.04:
         t["deck"] = r.choice(common.corpus_decks())
         cyc["api"] = r.choice(["package", "presentation"])
+        cyc["neighbour"] = r.random() < 0.5
     else:
         t["pkg"] = gen_pkg(S("pkg"))
     return t
@@ -502,6 +537,8 @@ def pinned_traces(tier):
         for api, form in (("package", "stream"), ("presentation", "path"), ("presentation", "dir")):
             out.append({"property": ID, "seed": "corpus-%s-%s" % (d, api), "tier": "pinned", "deck": d,
                         "cycle": dict(cyc, api=api, form=form), "events": []})
+        out.append({"property": ID, "seed": "corpus-%s-neighbour" % d, "tier": "pinned", "deck": d,
+                    "cycle": dict(cyc, api="presentation", form="stream", neighbour=True, sink1="preamble"), "events": []})
     from .pinned import c01 as p
     out.extend(p.traces())
     return out
